@@ -7,6 +7,8 @@ mod pool;
 mod e1;
 mod e2;
 mod dump;
+mod pyref;
+mod wbuild;
 mod c01;
 mod c02;
 mod c03;
